@@ -19,6 +19,7 @@ import (
 	"sync"
 
 	"github.com/lindb/lindb/kv"
+	"github.com/lindb/lindb/kv/table"
 	"github.com/lindb/lindb/kv/version"
 	"github.com/lindb/lindb/pkg/option"
 	"github.com/lindb/lindb/pkg/stream"
@@ -102,6 +103,10 @@ type env struct {
 	// finding); the target is then compared with the RECORDED behaviour of the code (expectedCurrent)
 	unguarded bool
 	big       bool // concurrent bulk case: file contents are not sent to the model
+	faults    bool // fault region: transient open failures of one source file during a rollup job
+	armFault  *fkey
+	attempted map[fkey]bool // source files a rollup job may have opened already (reader cached)
+	drainKey  string
 }
 
 func (e *env) srcStorePath(di int) string {
@@ -284,6 +289,16 @@ func sortTrips(t [][3]int64) {
 	})
 }
 
+func dedupKeys(ks []fkey) []fkey {
+	var out []fkey
+	for i, k := range ks {
+		if i == 0 || k != ks[i-1] {
+			out = append(out, k)
+		}
+	}
+	return out
+}
+
 func dedupTrips(t [][3]int64) [][3]int64 {
 	sortTrips(t)
 	var out [][3]int64
@@ -422,6 +437,21 @@ func (e *env) stateString() string {
 	return "pending=" + strings.Join(ps, ",") + " refs=" + strings.Join(rs, ",")
 }
 
+// pendingSet reads the live rollup entries (family code, file, interval) from the real versions.
+func (e *env) pendingSet() map[[3]int64]bool {
+	out := map[[3]int64]bool{}
+	for _, h := range e.hours {
+		snap := e.fams[h].GetSnapshot()
+		for file, ivs := range snap.GetCurrent().GetRollupFiles() {
+			for _, iv := range ivs {
+				out[[3]int64{int64(h), int64(file), int64(iv)}] = true
+			}
+		}
+		snap.Close()
+	}
+	return out
+}
+
 // ---------------------------------------------------------------- operations
 
 func joinInts(xs []int64) string {
@@ -516,14 +546,41 @@ func (e *env) opRollup(h int, cut int, viaStore bool) error {
 	e.image = e.base + "-img"
 	e.mu.Unlock()
 	os.RemoveAll(e.image)
+	before := e.pendingSet()
+	for k := range before {
+		if int(k[0]) == h {
+			defer func(k fkey) { e.attempted[k] = true }(fkey{h, k[1]})
+		}
+	}
+	fault := e.armFault
+	e.armFault = nil
+	if fault != nil {
+		// the next open of this source table file fails once (transient EMFILE / ENOMEM / I/O error)
+		table.VerifC02FailOpenOnce(version.Table(table.FileNumber(fault.file)))
+		e.c.Branch("fault-open-armed")
+	}
 	var err error
 	if viaStore {
 		err = kv.VerifForceRollupSync(e.days[h/100].store)
 	} else {
 		err = kv.VerifRollupSync(e.fams[h])
 	}
+	table.VerifC02ClearOpenFaults()
 	if err != nil {
 		return err
+	}
+	// an interval whose job failed keeps the rollup entry of the file: for the model it is an
+	// interval that was not available in this attempt
+	failed := map[int64]bool{}
+	if fault != nil {
+		after := e.pendingSet()
+		for _, t := range e.tgts {
+			k := [3]int64{int64(fault.h), fault.file, t}
+			if e.avail[t] && before[k] && after[k] {
+				failed[t] = true
+				e.c.Branch("fault-attempt-failed")
+			}
+		}
 	}
 	e.mu.Lock()
 	recs := e.cur
@@ -554,7 +611,7 @@ func (e *env) opRollup(h int, cut int, viaStore bool) error {
 	}
 	var av []int64
 	for _, t := range e.tgts {
-		if e.avail[t] {
+		if e.avail[t] && !failed[t] {
 			av = append(av, t)
 		}
 	}
@@ -720,7 +777,7 @@ func (e *env) checkDrained() {
 		}
 		for _, t := range e.tgts {
 			if con[k][t] != 1 {
-				e.c.Fail("not-merged-once", fmt.Sprintf("after complete rollups source file %d.%d was merged %d times into target interval %d", k.h, k.file, con[k][t], t))
+				e.c.Fail(e.drainKey, fmt.Sprintf("after complete rollups source file %d.%d was merged %d times into target interval %d", k.h, k.file, con[k][t], t))
 			}
 		}
 	}
@@ -992,6 +1049,7 @@ func newEnv(c *core.Ctx, rng *rand.Rand) (*env, error) {
 	}
 	return &env{c: c, rng: rng, base: base, avail: map[int64]bool{}, files: map[fkey]fileData{},
 		owned: map[[3]uint32]bool{}, schema: map[uint32]map[int]int{}, cutAt: -1, failKey: "slot-aggregate-mismatch",
+		attempted: map[fkey]bool{}, drainKey: "not-merged-once",
 		famOpt: kv.FamilyOption{CompactThreshold: 0, Merger: string(metricsdata.MetricDataMerger)}}, nil
 }
 
@@ -1218,6 +1276,23 @@ func (e *env) storeCase() error {
 			if via {
 				c.Branch("via-Store.ForceRollup")
 			}
+			if e.faults && rng.Intn(3) != 0 {
+				// a pending file of this family that no job has opened yet
+				var cands []fkey
+				for k := range e.pendingSet() {
+					fk := fkey{int(k[0]), k[1]}
+					if int(k[0]) == h && !e.attempted[fk] && len(e.files[fk]) > 0 {
+						cands = append(cands, fk)
+					}
+				}
+				sort.Slice(cands, func(i, j int) bool { return cands[i].file < cands[j].file })
+				cands = dedupKeys(cands)
+				if len(cands) > 0 {
+					fk := cands[rng.Intn(len(cands))]
+					e.armFault = &fk
+					cut, via = -1, false
+				}
+			}
 			if err := e.opRollup(h, cut, via); err != nil {
 				return err
 			}
@@ -1280,6 +1355,57 @@ func (e *env) witnessCase() error {
 		return err
 	}
 	c.Branch("witness-10s-7m")
+	c.NonTrivial()
+	return e.opRead(e.tgts[0])
+}
+
+// compactionWitness replays the second recorded finding: a compaction of the source family between
+// flush and rollup moves the flushed files out of level 0; doRollupWork looks its inputs up with
+// GetFile(0, …), finds none, merges nothing — and rollup() still deletes the rollup entries.
+// (store.compact() starts the compaction and the rollup job of a family in the same tick once it
+// has 4 level-0 files.) Deterministic.
+func (e *env) compactionWitness() error {
+	c := e.c
+	e.src, e.tgts = 10*sec, []int64{5 * min_}
+	e.drainKey = "compaction-before-rollup-loses-file"
+	if err := e.setDay(daysFromCivil(2019, 7, 2)); err != nil {
+		return err
+	}
+	e.hours = []int{1}
+	e.avail[e.tgts[0]] = true
+	if err := e.openStores(); err != nil {
+		return err
+	}
+	e.opCfg()
+	for n := 0; n < 2; n++ {
+		b := mblock{metric: 1, start: 0, end: 359}
+		for s := n; s < 360; s += 2 {
+			b.cells = append(b.cells, cell{series: uint32(1 + n), field: 1, ftype: 1, slot: s, val: 1})
+		}
+		if err := e.opFlush(1, fileData{b}); err != nil {
+			return err
+		}
+	}
+	// the real compaction job of the source family (body of the goroutine family.compact() starts)
+	e.mu.Lock()
+	e.cur, e.cutAt, e.imaged = nil, -1, false
+	e.mu.Unlock()
+	if err := kv.VerifC03CompactSync(e.fams[1]); err != nil {
+		return err
+	}
+	e.mu.Lock()
+	e.cur = nil
+	e.mu.Unlock()
+	var ks []string
+	for _, k := range e.order {
+		ks = append(ks, fmt.Sprintf("%d.%d", k.h, k.file))
+	}
+	c.Op("compact "+strings.Join(ks, ","), e.stateString())
+	if err := e.opRollup(1, -1, false); err != nil {
+		return err
+	}
+	e.checkDrained()
+	c.Branch("witness-compaction-before-rollup")
 	c.NonTrivial()
 	return e.opRead(e.tgts[0])
 }
@@ -1416,6 +1542,11 @@ func (a area) Run(c *core.Ctx) error {
 				err = e.witnessCase()
 			case i%8 == 7:
 				e.multi = true
+				err = e.storeCase()
+			case i == 4:
+				err = e.compactionWitness()
+			case i%8 == 4:
+				e.faults = true
 				err = e.storeCase()
 			case i%8 == 3:
 				e.unguarded = true
